@@ -8,7 +8,7 @@ def spec():
         "Address": {"type": "object", "required": ["street"], "properties": {"street": {"type": "string"}, "zip-code": {"type": "string"}}},
         "Person": {
             "type": "object",
-            "required": ["firstName"],
+            "required": ["firstName", "mood"],
             "properties": {
                 "firstName": {"type": "string"},
                 "last_name": {"type": "string"},
@@ -17,6 +17,8 @@ def spec():
                 "from": {"type": "integer"},
                 "userName": {"type": "string"},
                 "user_name": {"type": "string"},
+                "user_name_2": {"type": "string"},
+                "mood": {"type": ["string", "null"], "enum": ["ok", "bad"]},
                 "nickname": {"type": "string", "nullable": True},
                 "tags": {"type": "array", "items": {"type": "string"}},
                 "attrs": {"type": "object", "additionalProperties": {"type": "integer"}},
@@ -34,6 +36,7 @@ def spec():
                 "uid": {"type": "string", "format": "uuid"},
                 "avatar": {"type": "string", "format": "byte"},
                 "score": {"type": "number"},
+                "runs": {"type": "object", "additionalProperties": {"type": "string", "format": "date-time"}},
                 "active": {"type": "boolean"},
             },
         },
